@@ -468,6 +468,12 @@ int EGLPNUM_TYPENAME_ILLlib_tableau (
 		rval = 1;
 		ILL_CLEANUP;
 	}
+	if (lp->basisid == -1 || lp->baz == 0 || lp->f == 0)
+	{
+		QSlog("EGLPNUM_TYPENAME_ILLlib_tableau called without a factored basis");
+		rval = 1;
+		ILL_CLEANUP;
+	}
 	brow = EGLPNUM_TYPENAME_EGlpNumAllocArray (nrows);
 
 	if (tabrow)
@@ -514,6 +520,13 @@ int EGLPNUM_TYPENAME_ILLlib_basis_order (
 	int nstruct = lp->O->nstruct;
 	EGLPNUM_TYPENAME_ILLlpdata *qslp = lp->O;
 	int *invmap = 0;
+
+	if (lp->basisid == -1 || lp->baz == 0)
+	{
+		QSlog("EGLPNUM_TYPENAME_ILLlib_basis_order called without a loaded basis");
+		rval = 1;
+		ILL_CLEANUP;
+	}
 
 	ILL_SAFE_MALLOC (invmap, ncols, int);
 
